@@ -396,10 +396,15 @@ impl DrawExecutor {
         let e2 = b64 * b64;
         let mut err = x as i64 * (2 * e2 + x as i64) + e2; /* error of 1.step */
         let color = self.line_color;
+        let mut painted_row = -1;
 
         while x <= 0 {
-            self.fill_rect(xm - x, ym + y, xm + x, ym + y); /*  II. Quadrant */
-            self.fill_rect(xm + x, ym - y, xm - x, ym - y); /*  IV. Quadrant */
+            // x only grows within a row: its first span is the widest, the later ones repaint a part of it
+            if y != painted_row {
+                self.fill_rect(xm - x, ym + y, xm + x, ym + y); /*  II. Quadrant */
+                self.fill_rect(xm + x, ym - y, xm - x, ym - y); /*  IV. Quadrant */
+                painted_row = y;
+            }
             let e2 = 2 * err;
             if e2 >= (x as i64 * 2 + 1) * b64 * b64 {
                 /* e_xy+e_x > 0 */
